@@ -1013,7 +1013,9 @@ Qed.
    `select false`: no aggregate call is left, a ProjectionPlan is built, the statement is
    ACCEPTED and runs -- a wrong argument count that is not rejected.  The repaired
    checkFunctionCalls tests the count of aggregate functions next to the scalar ones, before the
-   folder runs ([check_calls_fx]; parse_check_agg with fxa = true).
+   folder runs, and reports it with the error AggregatePlan.Init used (ExecuteError at the call:
+   nothing changes for a statement whose only fault is the count) ([check_calls_fx];
+   parse_check_agg with fxa = true).
 
    "Before any storage access": [init_check] is a function of the statement alone (no storage
    argument); in the Go code the first storage call of the Init chain (Storage.Cursor in the
@@ -1084,20 +1086,21 @@ Proof. exact parse_check_agg_pinned_is_parse_check_then_init. Qed.
 Print Assumptions agg_init_no_storage_by_construction.
 
 (* non-vacuity + the witnesses of the two defects.  (1) the repaired validation rejects the wrong
-   count at the call (8: `count`), wherever it sits; the PINNED one accepts the text as a
-   projection although its checked field holds the faulty call.  (2) a wrong count in a field
-   that keeps its aggregate was always rejected, by AggregatePlan.Init (ExecuteError at the
-   call), now by the call validation.  (3) quantile's parameter: after the repair a negative
+   count at the call (8: `count`), wherever it sits, with the ExecuteError AggregatePlan.Init
+   used; the PINNED one accepts the text as a projection although its checked field holds the
+   faulty call.  (2) a wrong count in a field that keeps its aggregate was always rejected, by
+   AggregatePlan.Init (ExecuteError at the call), now -- with the same error -- by the call
+   validation; an aggregate inside a scalar call stays "Cannot find function" (SyntaxError).  (3) quantile's parameter: after the repair a negative
    parameter is rejected when the plan is built (ExecuteError at the argument); the pinned test
    `percent > 1.0` accepts it (and the quantile stream panics while the rows are computed). *)
 From KV Require Import Base.Flt.
 Example agg_arity_rejected_nonvacuous :
   forall (fo : fops) (re : string -> string -> res bool) (fmt_v : F fo -> string) (fxq : bool),
   let q := "select (count(1,2) > 0) & false where true" in
-  parse_check_agg fo re fmt_v fxq true q = PAErr KCalls 8%Z /\
+  parse_check_agg fo re fmt_v fxq true q = PAInitErr (EExec 8) /\
   (exists s f w o, parse_check_agg fo re fmt_v fxq false q = PAOk s (Checker.SSelect [f] w o) false /\
                    has_bad_aggr_arity (snd f) = true) /\
-  parse_check_agg fo re fmt_v fxq true "select key, 1 + sum(value, 1) where true group by key" = PAErr KCalls 16%Z /\
+  parse_check_agg fo re fmt_v fxq true "select key, 1 + sum(value, 1) where true group by key" = PAInitErr (EExec 16) /\
   parse_check_agg fo re fmt_v fxq false "select key, 1 + sum(value, 1) where true group by key" = PAInitErr (EExec 16) /\
   parse_check_agg fo re fmt_v fxq true "select upper(group_concat(key)) where true" = PAErr KCalls 13%Z /\
   (exists s c, parse_check_agg fo re fmt_v fxq true "select key, 1 + sum(value) where true group by key" = PAOk s c true).
